@@ -62,6 +62,7 @@ type config struct {
 	depth   int
 	same    bool // alphabet additionally holds StoreSame(k): the value stored is constant per key
 	slices  bool // with same: the constant value is a slice (values need not be comparable with ==)
+	nils    bool // with same: the constant value is nil (a stored nil is a live entry like any other)
 	cbPanic bool // the removal callback panics for key "b" (after logging); every operation is wrapped in recover
 	exotic  bool // the keys are unusual but legal map keys: nil, 0, "", struct{}{}, 1.5 (any comparable value is a key)
 }
@@ -91,6 +92,12 @@ func (cf config) label(k interface{}) string {
 
 func (cf config) String() string {
 	if cf.same {
+		if cf.slices {
+			return fmt.Sprintf("cap=%d warm=%d prefill=%d cb=%v depth=%d +StoreSame(slice values)", cf.cap, cf.warm, cf.prefil, cf.cb, cf.depth)
+		}
+		if cf.nils {
+			return fmt.Sprintf("cap=%d warm=%d prefill=%d cb=%v depth=%d +StoreSame(nil values)", cf.cap, cf.warm, cf.prefil, cf.cb, cf.depth)
+		}
 		return fmt.Sprintf("cap=%d warm=%d prefill=%d cb=%v depth=%d +StoreSame", cf.cap, cf.warm, cf.prefil, cf.cb, cf.depth)
 	}
 	if cf.cbPanic {
@@ -178,6 +185,9 @@ func runSeq(cf config, ops []op, seq []int, c *runner.Ctx) (sig, detail string, 
 			var sv interface{} = "same-" + o.key
 			if cf.slices {
 				sv = []string{"same", o.key}
+			}
+			if cf.nils {
+				sv = nil
 			}
 			guard(func() { lru.Store(cf.rk(o.key), sv) })
 			m.Store(o.key, sv)
@@ -451,7 +461,7 @@ func run(c *runner.Ctx) {
 		}
 		cfgs = append(cfgs, config{cap: cp, cb: true, depth: d, same: true}, config{cap: cp, prefil: cp, cb: true, depth: d - 1, same: true})
 		if cp <= 2 {
-			cfgs = append(cfgs, config{cap: cp, cb: true, depth: d - 1, same: true, slices: true})
+			cfgs = append(cfgs, config{cap: cp, cb: true, depth: d - 1, same: true, slices: true}, config{cap: cp, cb: true, depth: d - 1, same: true, nils: true})
 		}
 	}
 	// a removal callback that panics for one key (operations recovered by the caller)
